@@ -130,6 +130,8 @@ func runC27(x *simkit.Exec) {
 					kind = "served-without-matching-entry"
 				case got < 0:
 					kind = "rejected-although-entry-matches"
+				case len(cfg[want].Tenants) == 0 && len(cfg[got].Tenants) == 0:
+					kind = "later-default-entry-instead-of-first"
 				case len(cfg[want].Tenants) == 0:
 					kind = "named-entry-instead-of-default"
 				case len(cfg[got].Tenants) == 0:
